@@ -371,7 +371,9 @@ def roundtrip_one(c: dict, root: str, built: dict) -> list[tuple[str, str]]:
                 jax.effects_barrier()
                 os.replace(str(path) + "__stale.eqx", str(path))
         except Exception as e:
-            raise RuntimeError(f"harness: could not prepare sibling entry: {e!r}")
+            # the preparation is itself a legal save (into directories that do not exist yet, or next to nothing): a failure is the library's
+            return [(f"C18/roundtrip/serialize-raised/{sp}/{type(e).__name__}",
+                     f"{tag}: saving an earlier checkpoint {'below the not-yet-existing directory ' + os.path.relpath(str(path), root) if c['sibling'] == 'dir' else 'next to the target'} raised {type(e).__name__}: {str(e)[:300]}")]
         preexisting = files_under(root)
     try:
         if c.get("jit"):
